@@ -257,6 +257,12 @@ def family_db_views(seed):
                 ops.append(C)
         ops += [F, C]
         fam.append(ops)
+    # C11, second sentence: every history ends with a directory check - snapshots and pinned
+    # iterators are released, one more (empty) flush gives the garbage collection its occasion,
+    # then the table files on disk must be exactly those of the current version
+    for ops in fam:
+        if ops[-1] != DC and not any(o[0] == "damage_manifest" for o in ops):
+            ops.append(DC)
     moves = ["nnpnppnnnpnpp", "npnpnnppnnnnppppp", "nnnnnnpppppp"]
     return [{"oracle": "db_views", "db": ops, "moves": moves[i % len(moves)]} for i, ops in enumerate(fam)]
 
@@ -494,7 +500,7 @@ BOUNDS = {
     "family_crash_dir": "the inputs of family_crash; after the crash point the fault is cleared, the database is reopened, written once more and reopened again, and then its directory is compared with the current version, sampled for up to 3 s: a table file that is not in the current version, a missing one, a temp file or a manifest other than the one CURRENT names is reported only if it persists over all samples; write-ahead logs are not judged",
     "family_crash": "9 whole-database histories (the 5 of family_faults, 2 with values of 40000 and 70000 bytes, i.e. log records spanning 2-3 blocks of 32 KiB, and 2 in which an orphan table file, a temp file and a superseded manifest are dropped into the directory while the database is closed), each re-run once per counted file-system call and per crash mode (the call and everything after it fails; a failing write leaves 0 bytes, 1 byte, half or all but the last byte of its buffer); after the crash point the fault is cleared and the database is reopened, read, written once more and reopened again; in-process state that survives the simulated crash is not reset (only the file system decides what the restarted database sees)",
     "family_faults": "5 whole-database histories (3 hand-written, 2 pseudo-random per seed; at most 14 operations over 5 keys, with flushes, manual compactions and reopens, reuse_log_files on and off), each re-run once per counted file-system call (about 60 to 170 per history) with that call failing once, with that call and all later ones failing, and with that call failing once after half of its buffer was written (a torn write that is reported); only wrong results are judged - a panic or a hang of a faulted run is counted as not judged",
-    "family_db_views": "whole-database histories of at most 85 operations over 7 keys (18 hand-written - among them the witnesses of F11 (level-targeted manual compactions with 4 KiB files) and F12 (one byte of the manifest altered between close and reopen; `open` may refuse) - + 10 pseudo-random per seed); every live snapshot and the latest state read back through get, both scan directions, seek to every key, a zig-zag walk and 5 cursor scripts per key",
+    "family_db_views": "whole-database histories of at most 85 operations over 7 keys (18 hand-written - among them the witnesses of F11 (level-targeted manual compactions with 4 KiB files) and F12 (one byte of the manifest altered between close and reopen; `open` may refuse) - + 10 pseudo-random per seed); every live snapshot and the latest state read back through get, both scan directions, seek to every key, a zig-zag walk and 5 cursor scripts per key; every history ends with a directory check (snapshots and iterators released, one empty flush, then the table files on disk must be those of the current version)",
     "family_scan_damage": "7 databases of 120 keys in table files of about 25 blocks (block size 256); one byte of the newest table file is altered at 7 positions spread over the file; every key is looked up and the database is scanned in both directions; a lookup may fail, a scan may fail, neither may show anything else than the pairs written",
     "family_log_reader": "write-ahead-log byte streams built from the hand-written and seeded append / reopen / truncate / flip scripts of tools/replay.py (records up to 3 blocks)",
     "family_table_get": "one table of 16 entries (4 user keys x 4 versions) at block sizes 1, 64, 150, 4096 with 49 lookups, plus a one-entry table",
